@@ -20,14 +20,14 @@ import (
 
 // Ctx is the context of one check run.
 type Ctx struct {
-	Prop    string
-	Tier    string // quick | thorough
-	Seed    int64
-	Verif   string // /verif
-	Tmp     string // scratch directory (tmpfs if available), removed at exit
-	Start   time.Time
-	Workers int
-	Replay  string // --replay file
+	Prop     string
+	Tier     string // quick | thorough
+	Seed     int64
+	Verif    string // /verif
+	Tmp      string // scratch directory (tmpfs if available), removed at exit
+	Start    time.Time
+	Workers  int
+	Replay   string // --replay file
 	ChildBin string // binary used for child processes (default: this executable)
 
 	mu          sync.Mutex
@@ -36,7 +36,10 @@ type Ctx struct {
 	inconcl     []string
 	knownFile   []KnownEntry
 	printedKnow map[string]bool
+	transcripts []transcriptRec
 }
+
+type transcriptRec struct{ base, hash, file string }
 
 // Finding is one violation with its replay file.
 type Finding struct {
